@@ -35,6 +35,7 @@ type Conn struct {
 	// ErrWithData: the Read that hands out the last queued bytes also returns the pending EOF /
 	// read error (n > 0 together with err != nil, as io.Reader permits and crypto/tls does)
 	ErrWithData bool
+	RerrOnce bool // the pending read error is reported by one Read only (a transient condition such as an expired read deadline)
 	ClosedAt time.Duration // virtual time of the first Close
 	CloseBy  string
 }
@@ -100,7 +101,11 @@ func (c *Conn) Read(p []byte) (int, error) {
 		return n, nil
 	}
 	if c.rerr != nil {
-		return 0, c.rerr
+		e := c.rerr
+		if c.RerrOnce {
+			c.rerr = nil
+		}
+		return 0, e
 	}
 	return 0, io.EOF
 }
